@@ -10,6 +10,9 @@ pub fn run(op: &str, args: &[&str]) -> Option<String> {
     if let Some(r) = crate::ops_schema_ty::run_untyped(op, args) {
         return Some(r);
     }
+    if let Some(r) = crate::ops_cost::run(op, args) {
+        return Some(r);
+    }
     if let Some(r) = crate::ext_spec::run(op, args) {
         return Some(r);
     }
